@@ -15,6 +15,7 @@ from pyvc.contract import REGISTRY, TRUSTED
 VERIF = os.path.dirname(os.path.dirname(os.path.abspath(__file__)))
 OUT = os.environ.get("PYVC_OUT", VERIF)  # evidence/ and replays/ go here (seed runs redirect it)
 EXIT_OK, EXIT_VIOLATION, EXIT_UNDECIDED, EXIT_ERROR = 0, 1, 2, 3
+MAX_REPLAY_FILES_PER_FUNCTION = 3
 
 PYTHON_ASSUMPTIONS = [
     "CPython 3.9-3.12 semantics for the modelled subset (DESIGN 1.3/1.5); ints unbounded; dict insertion order",
@@ -77,13 +78,19 @@ def check_property(pid, tier="quick", seed=0):
 
     # ---- refuted obligations: replay on the real code
     seen_keys = set()
+    replay_cache = {}   # one concrete search per function under contract; further refuted obligations of it share the input
+    per_fn = {}
     for o in refuted:
-        rep = None
-        try:
-            rep = mod.replay(o, seed) if hasattr(mod, "replay") else None
-        except Exception as e:  # noqa
-            rep = {"error": repr(e)}
-        rep = rep or {}
+        fn = (o.get("unit") or o["name"]).split("[")[0]
+        per_fn[fn] = per_fn.get(fn, 0) + 1
+        if per_fn[fn] > MAX_REPLAY_FILES_PER_FUNCTION:
+            continue  # counted in evidence (refuted), not written out again
+        if fn not in replay_cache or o["kind"] in ("ground", "lemma"):
+            try:
+                replay_cache[fn] = (mod.replay(o, seed) if hasattr(mod, "replay") else None) or {}
+            except Exception as e:  # noqa
+                replay_cache[fn] = {"error": repr(e)}
+        rep = replay_cache[fn]
         key = rep.get("key") or o["name"]
         digest = hashlib.sha256((o["name"] + json.dumps(rep.get("input"), sort_keys=True, default=str)).encode()).hexdigest()[:10]
         os.makedirs(replay_dir, exist_ok=True)
@@ -187,7 +194,29 @@ def check_property(pid, tier="quick", seed=0):
                 status = EXIT_VIOLATION
                 lines.append(f"VIOLATION property={pid} replay={b['replay']}")
 
+    # ---- engine self-validation (DESIGN 1.2 / 2.4): translation cross-check and symbolic-vs-concrete differential
+    xcheck = None
+    if (tier == "thorough" or pid in ("C03",)) and not os.environ.get("PYVC_NO_SELFTEST"):
+        try:
+            from pyvc import crosscheck, diffcheck
+            big = tier == "thorough"
+            progs, ncmp, mism = crosscheck.run(seed, 60 if big else 6)
+            ncmp2, mism2 = crosscheck.run_sequences(seed, 25 if big else 4)
+            ncmp3, mism3 = diffcheck.run(seed, 80 if big else 12, 3)
+            xcheck = {"programs": progs + 6, "comparisons": ncmp + ncmp2 + ncmp3, "mismatches": (mism + mism2 + mism3)[:5],
+                      "what": "engine-as-interpreter (calls inlined) vs CPython on concrete inputs; symbolic leaf terms evaluated under "
+                              "concrete inputs vs the real leaf"}
+            if mism or mism2 or mism3:
+                status = EXIT_ERROR
+                lines.append(f"CHECKER-ERROR property={pid} engine cross-check disagrees with CPython on {len(mism + mism2 + mism3)} case(s) (see evidence)")
+        except Exception as e:  # noqa
+            xcheck = {"error": repr(e)[:300]}
+            status = EXIT_ERROR if status == EXIT_OK else status
+            lines.append(f"CHECKER-ERROR property={pid} engine cross-check crashed: {e!r}"[:300])
+    write_evidence.xcheck = xcheck
+    selftest = seeded_selftest(pid) if tier == "thorough" and not os.environ.get("PYVC_NO_SELFTEST") else None
     wall = time.time() - t0
+    write_evidence.selftest = selftest
     write_evidence(pid, tier, seed, mod, units, results, obs, proved, refuted, unknown, unsupported, errors,
                    bounded, violations, known_hits, wall)
     for ln in lines:
@@ -215,6 +244,31 @@ def fold_covers(obs):
         if o["verdict"] == "refuted":
             o["note"] = "vacuity guard: no path reaches this point - the contract's hypotheses exclude it"
         out.append(o)
+    return out
+
+
+def seeded_selftest(pid):
+    """Thorough tier (DESIGN 2.4): every seeded change filed for this property under /verif/seeded is applied to a scratch copy
+    of the working tree and the quick check is run against it; it must report a violation.  A miss is recorded as a gap."""
+    import glob
+    import shutil
+    import tempfile
+    out = []
+    for d in sorted(glob.glob(os.path.join(VERIF, "seeded", f"{pid}-mut*"))):
+        tmp = tempfile.mkdtemp(prefix="pyvc_selftest_")
+        try:
+            shutil.copytree(os.path.join(extract.REPO, "src"), os.path.join(tmp, "src"))
+            a = subprocess.run(["git", "apply", os.path.join(d, "patch.diff")], cwd=tmp, capture_output=True, text=True)
+            if a.returncode != 0:
+                out.append({"seed": os.path.basename(d), "result": "patch does not apply to this tree"})
+                continue
+            env = dict(os.environ, VERIF_REPO=tmp, PYVC_OUT=os.path.join(tmp, "out"), PYVC_NO_SELFTEST="1")
+            r = subprocess.run([sys.executable, "-m", "pyvc", "check", pid, "--tier", "quick"], cwd=VERIF, env=env, capture_output=True, text=True)
+            viol = [l for l in r.stdout.splitlines() if l.startswith("VIOLATION")]
+            out.append({"seed": os.path.basename(d), "exit": r.returncode, "caught": r.returncode == 1 and bool(viol),
+                        "first_line": (viol or [""])[0][:200]})
+        finally:
+            shutil.rmtree(tmp, ignore_errors=True)
     return out
 
 
@@ -260,6 +314,8 @@ def write_evidence(pid, tier, seed, mod, units, results, obs, proved, refuted, u
         "engine_errors": [{"unit": r["unit"], "traceback": r["error"][-1500:]} for r in errors],
         "bounded_obligations": [{k: v for k, v in b.items() if k != "violation"} for b in bounded],
         "argued_corollaries": getattr(mod, "ARGUED", []),
+        "seeded_selftest": getattr(write_evidence, "selftest", None),
+        "engine_crosscheck": getattr(write_evidence, "xcheck", None),
         "known_findings_hit": known_hits,
         "samples": samples,
         "explanation": getattr(mod, "EXPLANATION", ""),
